@@ -88,6 +88,16 @@ CHECKS = {
               "direction, ValueError exactly when empty, bounds contain every behaviour; the implementation is replayed through the "
               "model and compared with an exact rational LP."),
         design="4 (C12)", note=NOTE_R + " The objective string is parsed by the real grammar (model of the parser: C09)."),
+    "C13": dict(
+        technique="Coq session-machine theorems by induction over operation lists (partial) + lock-step histories on the real library with deep snapshots, aliasing analysis and fresh-interpreter replay",
+        text=("PARTIAL. Theorems C13_frame_partial / C13_globals_partial / C13_history_independent_partial (props/C13.v): in the pure "
+              "session machine model/Session.v (operations interpreted by the value-level models, operands selected by pool index) no "
+              "operation list of any length changes an existing pool member or the module-level state, and a step's result depends "
+              "only on its argument values. These are near-definitional for a functional model; CPython object identity and aliasing "
+              "cannot be modelled with what is installed, so violations are detected by the histories: every pool member, list "
+              "argument and module-level state is snapshotted around each of 12-30 operations per history, results are analysed for "
+              "shared mutable objects and mutated in place, and every step is repeated in the same session and in a fresh interpreter."),
+        design="4 (C13)", note=NOTE_T1 + " The purity of the real library is established only on the explored histories."),
     "C14": dict(
         technique="Coq proof over models with explicit escape sites + exhaustive fault enumeration through real files + exception classification",
         text=("Theorems of props/C14.v: the algebra layer (regenerated from source) yields only IncompatibleArgs or an error of a "
@@ -123,7 +133,6 @@ NOT_YET = {
     "C01": "check under construction in this session: needs the tactic soundness proofs (C04) to instantiate C05 for polyhedra",
     "C02": "check under construction in this session: needs the tactic soundness proofs (C04) to instantiate C05 for polyhedra",
     "C08": "check under construction in this session",
-    "C13": "check under construction in this session",
     "C15": "check under construction in this session",
     "C16": "check under construction in this session",
     "C19": "check under construction in this session",
